@@ -10,13 +10,14 @@ Scalar converters (`dataconverters.py`, `text_to_qname`, `isoduration`) are *abs
 identifier and a Python scalar (an opaque token) to its lexical form and back; the list forms (`' '.join`, `split`)
 are part of the codec as well. Nested objects are reached through call-backs (`Wr`, `Rd`) so that every kind is a
 first-order combinator; `writeCls` / `readCls` tie the knot with a depth bound (`fuel`).
-XML: namespaces are resolved (tags / attribute names in Clark notation, QName-valued content resolved by the harness).
+XML: namespaces are resolved; element tags and attribute names are interned as numbers by the harness (injectively, from
+their Clark notation; the table is part of `Generated/Schema.lean`), QName-valued content is resolved to Clark notation.
 Text `""` stands for "no text" (`None` and `''` are the same after serialisation).
 -/
 namespace Sdc.XmlBinding
 
 inductive Xml where
-  | node (tag : String) (attrs : List (String × String)) (kids : List Xml) (text : String)
+  | node (tag : Nat) (attrs : List (Nat × String)) (kids : List Xml) (text : String)
 deriving Repr, Inhabited
 
 inductive Val where
@@ -34,50 +35,53 @@ structure Codec where
   split : String → List String                 -- `text.split()` / `split(' ')` without empty items
   now : String                                 -- python token of `time.time()` (CurrentTimestampAttributeProperty)
 
-def xsiType : String := "{http://www.w3.org/2001/XMLSchema-instance}type"
+/-- names (element tags, attribute names) are interned by the harness as numbers; 0 = `xsi:type` -/
+abbrev Name := Nat
+
+def xsiType : Name := 0
 
 namespace Xml
-def tag : Xml → String | node t _ _ _ => t
-def attrs : Xml → List (String × String) | node _ a _ _ => a
+def tag : Xml → Nat | node t _ _ _ => t
+def attrs : Xml → List (Nat × String) | node _ a _ _ => a
 def kids : Xml → List Xml | node _ _ k _ => k
 def text : Xml → String | node _ _ _ x => x
-def setAttrs (a : List (String × String)) : Xml → Xml | node t _ k x => node t a k x
+def setAttrs (a : List (Nat × String)) : Xml → Xml | node t _ k x => node t a k x
 def setKids (k : List Xml) : Xml → Xml | node t a _ x => node t a k x
 def setText (x : String) : Xml → Xml | node t a k _ => node t a k x
-def empty (tag : String) : Xml := node tag [] [] ""
+def empty (tag : Nat) : Xml := node tag [] [] ""
 end Xml
 
 /-! ### attributes (order is irrelevant: the canonical form sorts them) -/
-abbrev Attrs := List (String × String)
-def getAttr (a : Attrs) (k : String) : Option String := (a.find? (·.1 == k)).map (·.2)
-def delAttr (a : Attrs) (k : String) : Attrs := a.filter (fun p => !(p.1 == k))
-def setAttr (a : Attrs) (k v : String) : Attrs := delAttr a k ++ [(k, v)]
+abbrev Attrs := List (Nat × String)
+def getAttr (a : Attrs) (k : Nat) : Option String := (a.find? (·.1 == k)).map (·.2)
+def delAttr (a : Attrs) (k : Nat) : Attrs := a.filter (fun p => !(p.1 == k))
+def setAttr (a : Attrs) (k : Nat) (v : String) : Attrs := delAttr a k ++ [(k, v)]
 
 /-! ### children -/
-def named (n : String) (ks : List Xml) : List Xml := ks.filter (·.tag == n)
-def firstNamed (n : String) (ks : List Xml) : Option Xml := ks.find? (·.tag == n)
-def removeAll (n : String) (ks : List Xml) : List Xml := ks.filter (fun k => !(k.tag == n))
+def named (n : Nat) (ks : List Xml) : List Xml := ks.filter (·.tag == n)
+def firstNamed (n : Nat) (ks : List Xml) : Option Xml := ks.find? (·.tag == n)
+def removeAll (n : Nat) (ks : List Xml) : List Xml := ks.filter (fun k => !(k.tag == n))
 /-- `node.remove(node.find(n))` -/
-def removeFirst (n : String) : List Xml → List Xml
+def removeFirst (n : Nat) : List Xml → List Xml
   | [] => []
   | k :: ks => if k.tag == n then ks else k :: removeFirst n ks
 /-- `_get_element_by_child_name(..., create_missing_nodes=True)` followed by an update of that element -/
-def modifyFirst (n : String) (f : Xml → Xml) : List Xml → List Xml
+def modifyFirst (n : Nat) (f : Xml → Xml) : List Xml → List Xml
   | [] => [f (Xml.empty n)]
   | k :: ks => if k.tag == n then f k :: ks else k :: modifyFirst n f ks
 
 /-- update the element a property lives in: the node itself (`sub_element_name is None`) or its first / new child -/
-def onElem (sub : Option String) (f : Xml → Xml) (x : Xml) : Xml :=
+def onElem (sub : Option Nat) (f : Xml → Xml) (x : Xml) : Xml :=
   match sub with
   | none => f x
   | some n => x.setKids (modifyFirst n f x.kids)
 
-def elemOf (sub : Option String) (x : Xml) : Option Xml :=
+def elemOf (sub : Option Nat) (x : Xml) : Option Xml :=
   match sub with
   | none => some x
   | some n => firstNamed n x.kids
 
-def dropElem (sub : Option String) (x : Xml) : Xml :=
+def dropElem (sub : Option Nat) (x : Xml) : Xml :=
   match sub with
   | none => x
   | some n => x.setKids (removeFirst n x.kids)
@@ -93,21 +97,21 @@ deriving Repr, DecidableEq, Inhabited
 
 inductive Kind where
   /-- `_AttributeBase` (all scalar attribute properties; `volatile` = CurrentTimestampAttributeProperty) -/
-  | attr (name conv : String) (optional volatile : Bool)
+  | attr (name : Nat) (conv : String) (optional volatile : Bool)
   /-- `_AttributeListBase` -/
-  | attrList (name conv : String) (optional : Bool)
+  | attrList (name : Nat) (conv : String) (optional : Bool)
   /-- `NodeTextProperty` family, `NodeEnumQNameProperty`, `NodeTextQNameProperty`, `DateOfBirthProperty` -/
-  | text (sub : Option String) (conv : String) (optional minLen : Bool) (style : TextStyle) (dflt : Option String)
+  | text (sub : Option Nat) (conv : String) (optional minLen : Bool) (style : TextStyle) (dflt : Option String)
   /-- `NodeTextListProperty`, `NodeTextQNameListProperty` -/
-  | textList (sub : Option String) (conv : String) (optional : Bool)
+  | textList (sub : Option Nat) (conv : String) (optional : Bool)
   /-- `SubElementTextListProperty` -/
-  | subTextList (name conv : String)
+  | subTextList (name : Nat) (conv : String)
   /-- `SubElementProperty`, `ContainerProperty`, `SubElementWithSubElementListProperty` -/
-  | sub (name : Option String) (cls : Nat) (optional container skipEmpty : Bool) (dispatch : Nat) (dflt : Option Val)
+  | sub (name : Option Nat) (cls : Nat) (optional container skipEmpty : Bool) (dispatch : Nat) (dflt : Option Val)
   /-- `SubElementListProperty`, `ContainerListProperty` -/
-  | subList (name : String) (cls : Nat) (container : Bool) (dispatch : Nat)
+  | subList (name : Nat) (cls : Nat) (container : Bool) (dispatch : Nat)
   /-- `ExtensionNodeProperty`, `AnyEtreeNodeProperty`, `AnyEtreeNodeListProperty` -/
-  | raw (sub : Option String) (style : RawStyle) (optional : Bool)
+  | raw (sub : Option Nat) (style : RawStyle) (optional : Bool)
 deriving Repr, Inhabited
 
 structure PropE where
@@ -177,7 +181,7 @@ def readClass (S : Schema) (dispatch decl : Nat) (x : Xml) : Option Nat :=
     | none => some decl
     | some q => S.lookupType dispatch q
 
-def writeItems (S : Schema) (wr : Wr) (name : String) (decl : Nat) (container : Bool) : List Val → Option (List Xml)
+def writeItems (S : Schema) (wr : Wr) (name : Nat) (decl : Nat) (container : Bool) : List Val → Option (List Xml)
   | [] => some []
   | .obj c fs :: vs =>
     match wr c fs (Xml.empty name), xsiFor S container decl c, writeItems S wr name decl container vs with
@@ -332,7 +336,105 @@ def readCls (C : Codec) (S : Schema) : Nat → Rd
   | f + 1 => fun c x => (readProps C S (readCls C S f) (S.props c) x).map (Val.obj c)
 
 /-- `as_etree_node(tag)` / `mk_node(tag)` -/
-def writeCls (C : Codec) (S : Schema) (fuel : Nat) (c : Nat) (fs : List Val) (tag : String) : Option Xml :=
+def writeCls (C : Codec) (S : Schema) (fuel : Nat) (c : Nat) (fs : List Val) (tag : Nat) : Option Xml :=
   writeInto C S fuel c fs (Xml.empty tag)
+
+/-! ## footprints, well-typed values, the decidable side condition on a class -/
+
+/-- the part of an element a descriptor reads and writes -/
+inductive Fp where
+  | attr (n : Nat)
+  | child (n : Nat)
+  | selfText
+  | selfKids
+  | whole
+deriving Repr, DecidableEq
+
+def Kind.fp : Kind → Fp
+  | .attr n _ _ _ => .attr n
+  | .attrList n _ _ => .attr n
+  | .text (some n) _ _ _ _ _ => .child n
+  | .text none _ _ _ _ _ => .selfText
+  | .textList (some n) _ _ => .child n
+  | .textList none _ _ => .selfText
+  | .subTextList n _ => .child n
+  | .sub (some n) _ _ _ _ _ _ => .child n
+  | .sub none _ _ _ _ _ _ => .whole
+  | .subList n _ _ _ => .child n
+  | .raw (some n) _ _ => .child n
+  | .raw none _ _ => .selfKids
+
+/-- two footprints that cannot interfere -/
+def Fp.indep : Fp → Fp → Bool
+  | .attr a, .attr b => a != b
+  | .attr _, .child _ | .child _, .attr _ => true
+  | .attr _, .selfText | .selfText, .attr _ => true
+  | .attr _, .selfKids | .selfKids, .attr _ => true
+  | .child a, .child b => a != b
+  | .child _, .selfText | .selfText, .child _ => true
+  | .selfText, .selfKids | .selfKids, .selfText => true
+  | _, _ => false
+
+def pairwiseIndep : List Fp → Bool
+  | [] => true
+  | f :: fs => fs.all (fun g => f.indep g && g.indep f) && pairwiseIndep fs
+
+/-- the decidable side condition on a class of the generated table: the XML names of its members are pairwise distinct
+    (so they cannot interfere), and no member uses the `xsi:type` attribute or the whole node -/
+def ClsE.ok (e : ClsE) : Bool :=
+  pairwiseIndep (e.props.map (·.kind.fp)) && e.props.all fun p => (Fp.attr xsiType).indep p.kind.fp
+
+def Schema.okCls (S : Schema) (c : Nat) : Bool :=
+  match S.cls c with
+  | some e => e.ok
+  | none => false
+
+/-- converter round trip for one scalar (the hypothesis per converter; C18 proves it for the scalar converters) -/
+def Codec.RT (C : Codec) (conv s : String) : Prop := ∃ l, C.toXml conv s = some l ∧ C.toPy conv l = some s
+
+/-- a list of scalars whose lexical forms survive `' '.join` / `split` -/
+def WTatoms (C : Codec) (conv : String) (joined : Bool) (vs : List Val) : Prop :=
+  ∃ ss ls, atoms vs = some ss ∧ mapM' (C.toXml conv) ss = some ls ∧ mapM' (C.toPy conv) ls = some ss ∧
+    (joined = true → C.split (C.join ls) = ls)
+
+/-- a nested value of class `c` under a member declared with class `decl`: its `xsi:type` (if any) resolves to `c` -/
+def WTnested (S : Schema) (container : Bool) (dispatch decl c : Nat) : Prop :=
+  ∃ t, xsiFor S container decl c = some t ∧
+    match t with
+    | none => c = decl
+    | some q => dispatch ≠ 0 ∧ S.lookupType dispatch q = some c
+
+/-- value `v` is in the round-trip domain of a member of kind `k`; `P c fs` = "the nested instance is well typed" -/
+def WTk (C : Codec) (S : Schema) (P : Nat → List Val → Prop) : Kind → Val → Prop
+  | .attr _ conv opt vol, v =>
+    (vol = true → v = .atom C.now) ∧ ((v = .none ∧ opt = true ∧ vol = false) ∨ ∃ s, v = .atom s ∧ C.RT conv s)
+  | .attrList _ conv _, v => ∃ vs, v = .list vs ∧ WTatoms C conv true vs
+  | .text sub conv opt _ style dflt, v =>
+    (v = .none ∧ sub.isSome = true ∧ opt = true ∧ ¬ (style = .enumQName ∧ dflt.isSome = true)) ∨
+    ∃ s l, v = .atom s ∧ C.toXml conv s = some l ∧ C.toPy conv l = some s ∧ (style = .qname → l ≠ "")
+  | .textList _ conv _, v => ∃ vs, v = .list vs ∧ WTatoms C conv true vs
+  | .subTextList _ conv, v => ∃ vs, v = .list vs ∧ WTatoms C conv false vs
+  | .sub name decl opt container skipEmpty dispatch dflt, v =>
+    name.isSome = true ∧
+    ((v = .none ∧ (opt = true ∨ skipEmpty = true) ∧ dflt = none) ∨
+     (skipEmpty = true ∧ v.isEmptyObj = true ∧ dflt = some v) ∨
+     ∃ c fs, v = .obj c fs ∧ ¬ (skipEmpty = true ∧ v.isEmptyObj = true) ∧ P c fs ∧ WTnested S container dispatch decl c)
+  | .subList _ decl container dispatch, v =>
+    ∃ vs, v = .list vs ∧ ∀ w ∈ vs, ∃ c fs, w = .obj c fs ∧ P c fs ∧ WTnested S container dispatch decl c
+  | .raw sub style opt, v =>
+    match style with
+    | .ext => ∃ xs, v = .raw xs
+    | .any => (v = .none ∧ opt = true ∧ sub.isSome = true) ∨ ∃ xs, v = .raw xs
+    | .anyList => ∃ xs, v = .raw xs
+
+def WTprops (C : Codec) (S : Schema) (P : Nat → List Val → Prop) : List PropE → List Val → Prop
+  | [], [] => True
+  | p :: ps, v :: vs => WTk C S P p.kind v ∧ WTprops C S P ps vs
+  | _, _ => False
+
+/-- well-typed instance of class `c` of nesting depth `< fuel` -/
+def WT (C : Codec) (S : Schema) : Nat → Nat → List Val → Prop
+  | 0 => fun _ _ => False
+  | f + 1 => fun c fs => S.okCls c = true ∧ WTprops C S (WT C S f) (S.props c) fs
 
 end Sdc.XmlBinding
